@@ -3,7 +3,9 @@ package abs
 import (
 	"fmt"
 	"math/rand"
+	"os"
 	"sort"
+	"strconv"
 )
 
 // Gen generates random transactions against a schema, guided by the abstract
@@ -15,6 +17,10 @@ type Gen struct {
 	St   map[string]map[string]map[string]interface{} // table -> uuid token -> row
 	next int                                          // next fresh uuid number
 	P    Profile
+	// transactions a scenario has lined up after the one it returned (a set-up followed by the scenario proper)
+	queue [][]AOp
+	// how often each scripted scenario was produced (a scenario that never fires checks nothing)
+	Stats map[string]int
 }
 
 // Profile biases the generator towards the behaviour one property is about.
@@ -68,6 +74,13 @@ func (g *Gen) SetState(dump map[string]interface{}) {
 			g.St[t][u] = r.(map[string]interface{})
 		}
 	}
+}
+
+func (g *Gen) count(what string) {
+	if g.Stats == nil {
+		g.Stats = map[string]int{}
+	}
+	g.Stats[what]++
 }
 
 func (g *Gen) fresh() string {
@@ -447,17 +460,23 @@ func (g *Gen) RefScenario() []AOp {
 	for i := range ops {
 		ops[i].Normalize()
 	}
+	g.count("weak-prune-two-passes")
 	return ops
 }
 
 // Txn generates one transaction.
 func (g *Gen) Txn() []AOp {
+	if len(g.queue) > 0 {
+		ops := g.queue[0]
+		g.queue = g.queue[1:]
+		return ops
+	}
 	if g.chance(0.12 * g.P.Refs) {
 		if ops := g.RefScenario(); ops != nil {
 			return ops
 		}
 	}
-	if g.chance(0.25 * g.P.Index / 0.3 * 0.3) {
+	if g.chance(0.5*g.P.Index) || os.Getenv("VERIF_SCENARIO") != "" && g.chance(0.5) {
 		if ops := g.Scenario(); ops != nil {
 			return ops
 		}
@@ -949,8 +968,12 @@ func (g *Gen) Scenario() []AOp {
 		}
 		return ops
 	}
-	switch g.pick(6) {
-	case 3, 4, 5: // several rows take one indexed value at once, then some move on: a duplicate remains unless all but one moved
+	kind := g.pick(4)
+	if v := os.Getenv("VERIF_SCENARIO"); v != "" {
+		kind, _ = strconv.Atoi(v) // debugging aid: one kind of scenario only
+	}
+	switch kind {
+	case 3: // several rows take one indexed value at once, then some move on: a duplicate remains unless all but one moved
 		// any table with an index whose columns are mutable and at least one of them a plain string or integer
 		var ts []string
 		for _, tn := range g.tableNames() {
@@ -1009,6 +1032,7 @@ func (g *Gen) Scenario() []AOp {
 			}
 			ops = append(ops, AOp{Op: "update", Table: t, Where: byUUID(u), Row: row})
 		}
+		g.count("same-value")
 		return norm(ops)
 	case 0: // swap the indexed values of two rows
 		ts := g.indexedTables(2)
@@ -1026,6 +1050,7 @@ func (g *Gen) Scenario() []AOp {
 			ra[cn] = g.St[t][b][cn]
 			rb[cn] = g.St[t][a][cn]
 		}
+		g.count("swap")
 		return norm([]AOp{{Op: "update", Table: t, Where: byUUID(a), Row: ra}, {Op: "update", Table: t, Where: byUUID(b), Row: rb}})
 	case 1: // delete a row and insert another one with its indexed values (either order of operations)
 		ts := g.indexedTables(1)
@@ -1074,6 +1099,7 @@ func (g *Gen) Scenario() []AOp {
 			// a later operation whose condition matches the committed version of the deleted row
 			ops = append(ops, AOp{Op: "select", Table: t, Where: [][]interface{}{}})
 		}
+		g.count("delete-insert")
 		return norm(ops)
 	default: // a touched non-root row loses its referrers; another row takes over its indexed values
 		isRoot := g.rootSemantics()
@@ -1084,7 +1110,7 @@ func (g *Gen) Scenario() []AOp {
 			}
 		}
 		if len(cands) == 0 {
-			return nil
+			return g.takeoverSetup()
 		}
 		t := cands[g.pick(len(cands))]
 		us := g.uuidsOf(t)
@@ -1147,8 +1173,82 @@ func (g *Gen) Scenario() []AOp {
 		}
 		ops = append(ops, AOp{Op: "insert", Table: t, UUID: nu, Row: row})
 		ops = append(ops, AOp{Op: "mutate", Table: keeper.table, Where: byUUID(keeper.uuid), Mutations: [][]interface{}{{keeper.col, "insert", []interface{}{nu}, "set"}}})
+		g.count("takeover")
 		return norm(ops)
 	}
+}
+
+// takeoverSetup builds the state the take-over scenario needs and lines the scenario up behind it: a non-root
+// row with indexed values, strongly referenced from one set column of a root row; then, in one transaction, the
+// row is touched, loses that reference (it will be collected) and a successor with the same indexed values takes
+// its place. The engine must accept it: at commit no two rows hold the value.
+func (g *Gen) takeoverSetup() []AOp {
+	isRoot := g.rootSemantics()
+	type cand struct{ t, rt, col string }
+	var cands []cand
+	for _, t := range g.tableNames() {
+		tb := g.S.Tables[t]
+		if isRoot(t) || len(tb.Indexes) == 0 {
+			continue
+		}
+		ok := true
+		for _, cn := range g.indexCols(t) {
+			c := tb.Cols[cn]
+			if KindOf(c) != "atom" || !(c.Key.T == "string" && len(c.Key.Enum) == 0 || c.Key.T == "integer") {
+				ok = false
+			}
+		}
+		if !ok {
+			continue
+		}
+		for _, rt := range g.tableNames() {
+			if !isRoot(rt) {
+				continue
+			}
+			for _, cn := range g.S.Tables[rt].ColNames() {
+				c := g.S.Tables[rt].Cols[cn]
+				if KindOf(c) == "set" && c.Key.Ref == t && c.Key.RT != "weak" && c.Min == 0 && c.Max < 0 && c.Mut {
+					cands = append(cands, cand{t, rt, cn})
+				}
+			}
+		}
+	}
+	if len(cands) == 0 {
+		return nil
+	}
+	c := cands[g.pick(len(cands))]
+	n := g.fresh()
+	nrow := g.MarkerRow(c.t, fmt.Sprintf("n%d", g.next), g.next)
+	setup := []AOp{{Op: "insert", Table: c.t, UUID: n, Row: nrow}}
+	keeper := ""
+	if us := g.uuidsOf(c.rt); len(us) > 0 {
+		keeper = us[g.pick(len(us))]
+		setup = append(setup, AOp{Op: "mutate", Table: c.rt, Where: byUUID(keeper), Mutations: [][]interface{}{{c.col, "insert", []interface{}{n}, "set"}}})
+	} else {
+		keeper = g.fresh()
+		krow := g.MarkerRow(c.rt, fmt.Sprintf("k%d", g.next), g.next)
+		krow[c.col] = []interface{}{n}
+		setup = append(setup, AOp{Op: "insert", Table: c.rt, UUID: keeper, Row: krow})
+	}
+	nu := g.fresh()
+	srow := g.MarkerRow(c.t, "successor", g.next)
+	for _, cn := range g.indexCols(c.t) {
+		srow[cn] = nrow[cn]
+	}
+	touch := AOp{Op: "select", Table: c.t, Where: byUUID(n)}
+	proper := []AOp{touch,
+		{Op: "mutate", Table: c.rt, Where: byUUID(keeper), Mutations: [][]interface{}{{c.col, "delete", []interface{}{n}, "set"}}},
+		{Op: "insert", Table: c.t, UUID: nu, Row: srow},
+		{Op: "mutate", Table: c.rt, Where: byUUID(keeper), Mutations: [][]interface{}{{c.col, "insert", []interface{}{nu}, "set"}}}}
+	for i := range setup {
+		setup[i].Normalize()
+	}
+	for i := range proper {
+		proper[i].Normalize()
+	}
+	g.queue = append(g.queue, proper)
+	g.count("takeover")
+	return setup
 }
 
 // RandomRow draws values for a random subset of the columns of a table
